@@ -33,6 +33,7 @@ CONSTANTS
   MaxSrc = 2
   TrackQueries = FALSE
   StickyQueries = FALSE
+  Preset = ""
   Observers = {"PrintModule"}
   EmitFile = "transitions.ndjson"
 VIEW View
